@@ -4,8 +4,24 @@
   oracle_c19 executes and go/cmd/c19 compares with the real package.
 -/
 import GocoinV.Proofs.C19
+import GocoinV.Proofs.C19Effects
+import GocoinV.Proofs.C19Reopen
+import GocoinV.Gen.QdbFacts
 namespace GocoinV.Props.C19
 open GocoinV GocoinV.Qdb GocoinV.QdbSpec GocoinV.Proofs.C19
+
+/-- The constants and guard shapes the hand-written model uses are the ones that stand in the source RIGHT
+    NOW (Gen/QdbFacts.lean is regenerated from lib/others/qdb on every run): flag bits, default options,
+    both bufio buffer sizes, `freerec` frees only on-disk records, `loadlog` rejects an unreadable header,
+    `defrag` clears PendingRecords. -/
+theorem model_matches_source_facts :
+    NO_BROWSE = Gen.QdbFacts.NO_BROWSE ∧ NO_CACHE = Gen.QdbFacts.NO_CACHE ∧
+    YES_CACHE = Gen.QdbFacts.YES_CACHE ∧ YES_BROWSE = Gen.QdbFacts.YES_BROWSE ∧
+    ({} : Opts) = { defragPerc := Gen.QdbFacts.DefaultDefragPercentVal, forcedPerc := Gen.QdbFacts.DefaultForcedDefragPerc,
+                    maxPending := Gen.QdbFacts.DefaultMaxPending, maxPendingNoSync := Gen.QdbFacts.DefaultMaxPendingNoSync } ∧
+    bufSize = Gen.QdbFacts.defragBufSize ∧ bufSize = Gen.QdbFacts.idxBufSize ∧ Gen.QdbFacts.KeySize = 8 ∧
+    Gen.QdbFacts.freerecChecksDatpos = true ∧ Gen.QdbFacts.loadlogRejectsHeaderError = true ∧
+    Gen.QdbFacts.defragClearsPending = true := by decide
 
 /-- Refinement, cached sub-language. For EVERY sequence of Put / PutExt / Del / Get / Browse / ApplyFlags /
     Defrag / Sync / NoSync (any thresholds, volatile or not, forced or automatic sync and defrag inside)
@@ -40,5 +56,119 @@ example : Cached (openDB {} false true { maxPending := 0 }) ∧
   · intro op hop
     simp only [List.mem_cons, List.not_mem_nil, or_false] at hop
     rcases hop with rfl | rfl | rfl | rfl | rfl | rfl | rfl <;> simp [OpOK] <;> decide
+
+/-- The directory in the model state is always the replay of the recorded effect list: after opening any
+    directory `fs0` and running ANY operation sequence (including reopen), applying all recorded effects to
+    `fs0` gives exactly the directory the model is in. Hence `crashFS fs0 db n` for `n ≤ |effs|` are exactly
+    the directories that exist between two file operations of the run — the crash states. -/
+theorem fs_is_replay_of_effects (fs0 : FS) (vol load : Bool) (opts : Opts) (ops : List Op) :
+    crashFS fs0 (run (openDB fs0 vol load opts) ops) (run (openDB fs0 vol load opts) ops).effs.length =
+      (run (openDB fs0 vol load opts) ops).fs := by
+  obtain ⟨es, h1, h2⟩ := replays_run ops (openDB fs0 vol load opts)
+  unfold crashFS
+  rw [List.take_length, h2, h1, List.map_append, applyAll_append, ← openDB_replays]
+
+/-- One 24-byte index record (key, datpos, datlen, DataSeq, flags — as written by addtolog and writedatfile)
+    decodes to the same fields, whatever follows it. -/
+theorem index_record_roundtrip (k : Key) (r : Rec) (rest : Bytes) (h : RecFits k r) :
+    decRec (encRec k r ++ rest) = (k, strip r) := decRec_encRec k r rest h
+
+/-- The index log: `loadlog`'s parser applied to any sequence of entries as `sync` writes them (24-byte
+    put entries with datpos ≠ 0, 12-byte delete markers) returns exactly those entries, in order. -/
+theorem index_log_roundtrip (es : List LogEntry) (h : ∀ e ∈ es, EntryFits e) :
+    parseLog (encLog es).length (encLog es) = es.map stripE :=
+  parseLog_encLog es h _ (encLog_length_ge es)
+
+/-- The index snapshot: a file `seq ++ records ++ FFFFFFFF ++ seq ++ "FINI"` passes `read_and_check_file`
+    with that sequence number and `loaddat`'s loop reads back exactly the records. -/
+theorem index_snapshot_roundtrip (ver : Nat) (recs : List (Key × Rec)) (hv : ver < 2^32)
+    (h : ∀ kr ∈ recs, RecFits kr.1 kr.2) :
+    checkIdxFile (some (snapBytes ver recs)) = some (ver, snapBytes ver recs) ∧
+    snapshotRecs (snapBytes ver recs) = recs.map fun kr => (kr.1, strip kr.2) :=
+  ⟨checkIdxFile_snapBytes ver recs hv, snapshotRecs_snapBytes ver recs h⟩
+
+/-- `writedatfile` (through its 1 MiB bufio.Writer, whatever the number of records) leaves in the OTHER
+    index slot a complete snapshot of the in-memory index under the next sequence number, and leaves no
+    log and no older snapshot; data files are untouched. -/
+theorem writedatfile_writes_complete_snapshot (db : DB) :
+    idxFile (writedatfile db).fs (1 - db.datIdx) = some (snapBytes (u32 (db.verSeq + 1)) db.index) ∧
+    otherIdx (writedatfile db).fs (1 - db.datIdx) = none ∧
+    (writedatfile db).fs.log = none ∧ (writedatfile db).fs.dats = db.fs.dats := by
+  obtain ⟨a, b, c, d, _⟩ := writedatfile_disk db
+  exact ⟨a, b, c, d⟩
+
+/-- Reopen identity, snapshot path. For a store whose records are in memory (no NO_CACHE), with distinct
+    keys < 2^64, flags < 2^32, datlen = length of the value and all values fitting one data file:
+    (a) non-volatile: Defrag(true), Close, NewDBExt(LoadData) — in any mode and with any options — gives a
+        store that has not failed and holds exactly the same keys, values and flags;
+    (b) volatile with unsaved changes: Close, NewDBExt(LoadData) does the same.
+    The proof goes through the real file contents: data file layout written through bufio, index snapshot
+    with trailer, removal of log / old snapshot / old data files, `loadneweridx`, `loaddat`, `loadlog`,
+    `cleanupold` and `load`. -/
+theorem reopen_after_close_identity_partial (db : DB) (h : Cached db) (hwf : IndexWF db.index)
+    (vol : Bool) (opts : Opts) :
+    (db.volatile = false →
+      (run db [.defrag true, .reopen vol true opts]).failed = none ∧
+      absv (run db [.defrag true, .reopen vol true opts]) = absv db) ∧
+    (db.volatile = true → db.noSync = true →
+      (run db [.reopen vol true opts]).failed = none ∧
+      absv (run db [.reopen vol true opts]) = absv db) := by
+  obtain ⟨o1, o2, o3⟩ := open_after_defrag db h hwf vol opts
+  constructor
+  · intro hv
+    have hd : step db (.defrag true) = defrag db := by
+      show (defragOp db true).1 = defrag db
+      unfold defragOp
+      rw [if_neg (notFailed h)]
+      simp [hv]
+    obtain ⟨c1, c2⟩ := close_after_defrag_nonvolatile db h hv
+    show (step (step db (.defrag true)) (.reopen vol true opts)).failed = none ∧
+      absv (step (step db (.defrag true)) (.reopen vol true opts)) = absv db
+    rw [hd]
+    show (match (close (defrag db)).failed with
+      | some _ => close (defrag db)
+      | none => { openDB (close (defrag db)).fs vol true opts with
+                  effs := (close (defrag db)).effs ++ (openDB (close (defrag db)).fs vol true opts).effs }).failed = none ∧
+      absv (match (close (defrag db)).failed with
+      | some _ => close (defrag db)
+      | none => { openDB (close (defrag db)).fs vol true opts with
+                  effs := (close (defrag db)).effs ++ (openDB (close (defrag db)).fs vol true opts).effs }) = absv db
+    rw [c1, c2]
+    exact ⟨o2, o3⟩
+  · intro hv hn
+    have hk := defrag_cached db h
+    have hc : (close db).failed = none ∧ (close db).fs = (defrag db).fs := by
+      unfold close
+      rw [if_neg (notFailed h)]
+      simp only [hv, hn, ↓reduceIte, hk.cached.1]
+      exact ⟨trivial, trivial⟩
+    show (match (close db).failed with
+      | some _ => close db
+      | none => { openDB (close db).fs vol true opts with
+                  effs := (close db).effs ++ (openDB (close db).fs vol true opts).effs }).failed = none ∧
+      absv (match (close db).failed with
+      | some _ => close db
+      | none => { openDB (close db).fs vol true opts with
+                  effs := (close db).effs ++ (openDB (close db).fs vol true opts).effs }) = absv db
+    rw [hc.1, hc.2]
+    exact ⟨o2, o3⟩
+
+-- OPEN: reopen_after_close_identity — the same for the LOG path (Close = sync appends to qdbidx.log; reopen
+--   replays snapshot + log) and for stores with NO_CACHE / not-loaded records. Needs the invariant
+--   "snapshot + well-formed log describe the index for every key that is not pending". The pieces
+--   index_log_roundtrip / index_snapshot_roundtrip above are proved; the invariant over sync is not.
+-- OPEN: qdb_durable — ∀ ops, ∀ n ≤ |effs|, openDB (crashFS fs0 db n) does not fail and every key holds its
+--   last synced value or a later written one. fs_is_replay_of_effects (crash states = prefixes) is proved;
+--   the recovery argument per prefix is only checked by the harness (all crash points x hits of every run).
+
+/-- non-vacuity of reopen_after_close_identity_partial: a two-record store -/
+example : IndexWF [(1, (newRec [1, 2, 3] 0)), (2 ^ 64 - 1, (newRec [] NO_BROWSE))] := by
+  refine ⟨?_, ?_, by decide, by decide⟩
+  · intro kr h
+    simp only [List.mem_cons, List.not_mem_nil, or_false] at h
+    rcases h with rfl | rfl <;> exact ⟨rfl, by decide⟩
+  · intro kr h
+    simp only [List.mem_cons, List.not_mem_nil, or_false] at h
+    rcases h with rfl | rfl <;> exact ⟨by decide, by decide, by decide⟩
 
 end GocoinV.Props.C19
